@@ -351,3 +351,62 @@ func pathDesc(r *core.Run, path []*ssa.BasicBlock) string {
 	}
 	return "path: " + strings.Join(ps, " -> ")
 }
+
+// ruleLoopVarAddr (T-loopvar): the address of a variable that is re-assigned on
+// every iteration of a loop (a range/loop variable under the module's Go <1.22
+// semantics: one variable per loop) is stored into a slice, field or map inside
+// that loop. Every stored pointer then refers to the same variable, i.e. to the
+// last element: per-element work done later through those pointers is applied
+// to the last element only (e.g. only the last revoked account is unbound).
+func ruleLoopVarAddr(r *core.Run, id string, roots ...string) {
+	var rs []*ssa.Function
+	for _, rt := range r.Roots {
+		for _, pfx := range roots {
+			if rt.Consensus() && strings.HasPrefix(r.P.Name(rt.Fn), pfx) {
+				rs = append(rs, rt.Fn)
+			}
+		}
+	}
+	scope := r.P.CG.Reach(rs...)
+	nLoops, nBad := 0, 0
+	for _, f := range r.P.SortedFuncs(scope) {
+		if r.P.IsGenerated(f) || len(f.Blocks) == 0 {
+			continue
+		}
+		for _, l := range cfgx.Loops(f) {
+			nLoops++
+			for _, b := range f.Blocks {
+				if !l.Body[b] {
+					continue
+				}
+				for _, ins := range b.Instrs {
+					st, ok := ins.(*ssa.Store)
+					if !ok {
+						continue
+					}
+					al, ok := st.Val.(*ssa.Alloc)
+					if !ok || l.Body[al.Block()] {
+						continue // not an address, or a variable that is fresh in every iteration
+					}
+					if _, toLocal := st.Addr.(*ssa.Alloc); toLocal {
+						continue // p := &v (pointer kept in a local): only flows further through other stores
+					}
+					// re-assigned inside the loop?
+					reassigned := false
+					for _, ref := range *al.Referrers() {
+						if s2, ok := ref.(*ssa.Store); ok && s2.Addr == al && l.Body[s2.Block()] {
+							reassigned = true
+						}
+					}
+					if !reassigned {
+						continue
+					}
+					nBad++
+					r.Violate(id, core.Key(id, r.P.Name(f), "&"+al.Comment), r.P.Pos(st.Pos()), fmt.Sprintf("%s stores the address of %s, a variable re-assigned on every iteration of the enclosing loop (one variable per loop under this module's Go version), into a slice/field inside that loop: all stored pointers alias the last element, so what is later done \"for each\" of them happens to the last one only", r.P.Name(f), al.Comment))
+				}
+			}
+		}
+	}
+	r.Discharge(id, core.Key(id, "scope"), "", fmt.Sprintf("%d loops in %d functions scanned, %d escaping loop-variable addresses", nLoops, len(scope), nBad))
+	r.Floor("loopvar_loops_scanned", nLoops, 5)
+}
